@@ -8,4 +8,6 @@ CONSTANTS
   PreFix = FALSE
   CoarseCancel = FALSE
   Modes = {"nowait"}
+  Modes2 = {"none"}
+  NeverExits = {}
 INVARIANTS NoCancelBeforePopenWitness
